@@ -1,7 +1,7 @@
 ---------------------------- MODULE ZoneImplRule ----------------------------
 (***************************************************************************)
 (* The implementation-shaped model continued for zones WITH a DST rule       *)
-(* footer: ExtendTransitions() (the rule instants of 403 rule years appended *)
+(* footer: ExtendTransitions() (the rule instants of 404 rule years appended *)
 (* to the table, `last_year_` one less than the last generated year) and the *)
 (* 400-year shift in BreakTime / MakeTime / TimeLocal.  MCRule checks with    *)
 (* TLC, on real-range zones, that this design gives the answers of the       *)
@@ -41,7 +41,9 @@ ExtYears(Z, y, left) ==
 TableR(Z) ==
   LET file == [k \in 1..Z.n |-> [at |-> Z.at[k], T |-> Z.types[Z.ty[k]]]]
       t1 == IF Z.n = 0 \/ ~(Z.at[1] \prec WZero) THEN <<[at |-> BigBangT, T |-> Z.types[Z.dflt]]>> \o file ELSE file
-      t2 == TLCEval(t1 \o ExtYears(Z, Y0(Z), 403))          \* forced once: it is indexed 2 x 800 times below
+      \* as repaired: generation starts with the year BEFORE the last entry's local year (a rule time beyond 24 h places that
+      \* year's last change in the opening days of the next one; the pinned design started at Y0 and lost it)
+      t2 == TLCEval(t1 \o ExtYears(Z, Y0(Z) \ominus W(1), 404))          \* forced once: it is indexed 2 x 800 times below
       prevT(i) == IF i = 1 THEN Z.types[Z.dflt] ELSE t2[i - 1].T
   IN  TLCEval([i \in 1..Len(t2) |->
          [at |-> t2[i].at, T |-> t2[i].T,
